@@ -17,6 +17,8 @@ def replay(pid, path):
     try:
         kind = meta.get("kind", "run")
         cfgname = meta.get("deps") or ("nostd" if meta.get("config") == "a_nostd" else "std")
+        if cfgname not in core.DEP_CONFIGS:
+            cfgname = "std"
         deps = core.build_deps(cfgname)
         extern = "renamed" if str(meta.get("config", "")).startswith("b_") else "strum"
         sp = run.path("replay.rs")
